@@ -71,11 +71,17 @@ TARGETS = [
     ('utf32_convert_from_utf8', '_ST_PRIVATE::conversion_error_t (char32_t *, const char *, size_t, ST::utf_validation_t)'),
     ('utf32_convert_from_utf16', '_ST_PRIVATE::conversion_error_t (char32_t *, const char16_t *, size_t, ST::utf_validation_t)'),
     ('utf16_convert_from_utf8', '_ST_PRIVATE::conversion_error_t (char16_t *, const char *, size_t, ST::utf_validation_t)'),
+    ('utf16_convert_from_latin_1', 'void (char16_t *, const char *, size_t)'),
+    ('utf32_convert_from_latin_1', 'void (char32_t *, const char *, size_t)'),
+    ('latin_1_convert_from_utf8', '_ST_PRIVATE::conversion_error_t (char *, const char *, size_t, ST::utf_validation_t, bool)'),
+    ('latin_1_convert_from_utf16', '_ST_PRIVATE::conversion_error_t (char *, const char16_t *, size_t, ST::utf_validation_t, bool)'),
+    ('latin_1_convert_from_utf32', '_ST_PRIVATE::conversion_error_t (char *, const char32_t *, size_t, ST::utf_validation_t, bool)'),
 ]
 # a pointer parameter that points into the array of another parameter (one past its end): it is passed as an index
 # functions whose first `T *` parameter with a non-const pointee is a write-only cursor (used only as `*p++ = e`)
 PLAIN_CURSOR_FUNCS = ('utf8_convert_from_latin_1', 'utf16_convert_from_utf32', 'utf8_convert_from_utf32', 'utf32_convert_from_utf8',
-                      'utf32_convert_from_utf16', 'utf16_convert_from_utf8')
+                      'utf32_convert_from_utf16', 'utf16_convert_from_utf8', 'utf16_convert_from_latin_1', 'utf32_convert_from_latin_1',
+                      'latin_1_convert_from_utf8', 'latin_1_convert_from_utf16', 'latin_1_convert_from_utf32')
 ALIAS_PARAMS = {('extract_utf8', 'end'): 'utf8', ('extract_utf16', 'end'): 'utf16'}
 # a translated function that returns a pointer returns it into the array of this parameter
 RET_BASE_PARAM = 0
@@ -788,10 +794,10 @@ class Translator:
             e = self.stmts(([inner[2]] if len(inner) > 2 else []) + rest, env)
             return self.with_binds(binds, '(if z2b %s then %s else %s)' % (cond, t, e))
         if self.out_cursor is not None and k == 'BinaryOperator' and s.get('opcode') == '=' and is_cursor_store(inner[0], self.out_cursor):
-            v, _, binds = self.full_expr(inner[1], env)
-            env2 = dict(env)
+            v, pend, binds = self.full_expr(inner[1], env, allow_pending=True)
+            lets, env2 = self.apply_pending(pend, env)
             env2[('out', self.out_cursor)] = '(%s ++ [%s])' % (env[('out', self.out_cursor)], v)
-            return self.with_binds(binds, self.stmts(rest, env2))
+            return self.with_binds(binds, lets + self.stmts(rest, env2))
         if self.out_cursor is not None and k == 'CallExpr' and call_name(s) == 'copy' and len(inner) == 4 \
                 and is_ref_to(inner[1], self.out_cursor):
             arr = inner[2]
